@@ -150,3 +150,23 @@ where
         MapOperation::Clear => Some(MapOperation::Clear),
     }
 }
+
+#[cfg(swimos_verif)]
+impl<K: std::fmt::Debug + Ord, V: std::fmt::Debug> EventQueue<K, V> {
+    /// Canonical (iteration order independent) rendering of the state, with the epochs expressed
+    /// relative to the head of the queue.
+    pub fn verif_key(&self) -> String {
+        let mut epochs = self
+            .epoch_map
+            .iter()
+            .map(|(k, e)| (k, e.wrapping_sub(self.head_epoch)))
+            .collect::<Vec<_>>();
+        epochs.sort();
+        format!("q={:?};e={:?}", self.events, epochs)
+    }
+
+    pub fn verif_set_head_epoch(&mut self, head_epoch: usize) {
+        debug_assert!(self.events.is_empty());
+        self.head_epoch = head_epoch;
+    }
+}
